@@ -1,0 +1,13 @@
+//go:build verif
+
+package jsonsign
+
+// Hooks for the /verif correspondence harness (property C16). Add-only; with the
+// build tag off nothing changes.
+
+// VerifReArmor exposes reArmor.
+func VerifReArmor(line string) string { return reArmor(line) }
+
+// VerifParts returns the BP, BPJ and BS slices computed by NewVerificationRequest
+// (all nil when no separator was found).
+func (vr *VerifyRequest) VerifParts() (bp, bpj, bs []byte) { return vr.bp, vr.bpj, vr.bs }
